@@ -8,7 +8,7 @@
     bit for bit by one Gallina term.  The recorded-table cases [CLm] are kept: they localise a disagreement. *)
 From Coq Require Import List Floats ZArith Bool.
 From Compute Require Export Base.Ops Base.ListMat Base.Tape Model.Reduce Model.MatMul Model.Optim
-  Model.Subst Model.Cholesky Model.LU Model.Solve Model.SolveInst.
+  Model.Subst Model.Cholesky Model.LU Model.Solve Model.SolveInst Model.LMTape.
 Import ListNotations.
 
 Definition runs := list (nat * outcome (list float)).
@@ -66,51 +66,8 @@ Section WithTable.
            end
     end.
 
-  (** ** LM on the tape *)
-  Section LMTape.
-    Variable e : expr float.
-    Variable xs ys : list float.
-    Definition lm_resid (ps : list float) : option (list float) :=
-      let fix go (pts : list (float * float)) : option (list float) :=
-        match pts with
-        | [] => Some []
-        | (x, y) :: pts' =>
-            let* v := tape_val F e [[x]] ps in
-            let* r := go pts' in Some (PrimFloat.sub y v :: r)
-        end in go (combine xs ys).
-    (** start of [optimize]: parameters are leaves; per point [f], the node of [y - val], the sweep *)
-    Definition lm_jac0 (ps : list float) : option (list (list float)) :=
-      let (pv, tp0) := add_vars F empty_tape ps in
-      let fix go (pts : list float) (tp : tape) : option (list (list float)) :=
-        match pts with
-        | [] => Some []
-        | x :: pts' =>
-            let* (v, tp1) := eval F e pv [] [[x]] tp in
-            let (_, tp2) := push tp1 (snd v) (snd v) (zero F) (m1 F) in
-            let row := wrt F (grad F tp2 v) pv in
-            let* rows := go pts' tp2 in Some (row :: rows)
-        end in go xs tp0.
-    (** an accepted step: leaves, the [x + d] nodes, the trial evaluations, then per point [f] + sweep *)
-    Definition lm_jac1 (ps' : list float) : option (list (list float)) :=
-      let (pv, tp0) := add_vars F empty_tape ps' in
-      let '(nv, tp1) := fold_left (fun (st : list var * tape) (pv : var) =>
-                            let (l, t') := push (snd st) (snd pv) (snd pv) (one F) (zero F) in
-                            (fst st ++ [(fst pv, l)], t')) pv ([], tp0) in
-      let fix trial (pts : list float) (tp : tape) : option tape :=
-        match pts with
-        | [] => Some tp
-        | x :: pts' => let* (_, tp') := eval F e nv [] [[x]] tp in trial pts' tp'
-        end in
-      let fix go (pts : list float) (tp : tape) : option (list (list float)) :=
-        match pts with
-        | [] => Some []
-        | x :: pts' =>
-            let* (v, tp') := eval F e nv [] [[x]] tp in
-            let row := wrt F (grad F tp' v) nv in
-            let* rows := go pts' tp' in Some (row :: rows)
-        end in
-      let* tp2 := trial xs tp1 in go xs tp2.
-  End LMTape.
+  (** ** LM on the tape: [lm_resid], [lm_jac0], [lm_jac1] of Model/LMTape.v (generic over the carrier; the
+      theorems of Proofs/C10_lm_tape.v are about the same terms at [RO]) run at [F] *)
 
   Definition lookup_solve (t : list (list float * list float * list float))
              (m : matrix (T:=float)) (b : list float) : option (list float) :=
@@ -130,7 +87,7 @@ Section WithTable.
     | [xs; ys] =>
         if negb (length xs =? length ys) then Panic
         else opt_out (option_map (fun r => fst r ++ snd r)
-               (lm F (lm_resid e xs ys) (lm_jac0 e xs) (lm_jac1 e xs)
+               (lm F (lm_resid F e xs ys) (lm_jac0 F e xs) (lm_jac1 F e xs)
                    (lookup_solve solves) (lookup_inv invs) h k ps))
     | _ => Panic
     end.
@@ -141,7 +98,7 @@ Section WithTable.
     | [xs; ys] =>
         if negb (length xs =? length ys) then Panic
         else opt_out (option_map (fun r => fst r ++ snd r)
-               (lm F (lm_resid e xs ys) (lm_jac0 e xs) (lm_jac1 e xs)
+               (lm F (lm_resid F e xs ys) (lm_jac0 F e xs) (lm_jac1 F e xs)
                    (mat_solve_vec F) (fun m => option_map (@dat float) (mat_inv F m)) h k ps))
     | _ => Panic
     end.
